@@ -179,14 +179,14 @@ impl LangInterpreter for Italian {
                 }
             }
             "milione" if b.is_range_free(6, 8) => {
-                if b.peek(2) != b"1" {
+                if (b.peek(3) != b"1" && b.peek(3) != b"001") || !b.is_range_free(3, 5) {
                     Err(Error::NaN)
                 } else {
                     b.shift(6)
                 }
             }
             "milionesim" if b.is_range_free(6, 8) => {
-                if b.peek(2) == b"1" {
+                if b.peek(3) == b"1" || b.peek(3) == b"001" {
                     Err(Error::NaN)
                 } else {
                     b.shift(6)
@@ -200,14 +200,14 @@ impl LangInterpreter for Italian {
                 }
             }
             "miliardo" => {
-                if b.peek(2) != b"1" {
+                if (b.peek(3) != b"1" && b.peek(3) != b"001") || !b.is_range_free(3, 5) {
                     Err(Error::NaN)
                 } else {
                     b.shift(9)
                 }
             }
             "miliardesim" => {
-                if b.peek(2) == b"1" {
+                if b.peek(3) == b"1" || b.peek(3) == b"001" {
                     Err(Error::NaN)
                 } else {
                     b.shift(9)
@@ -221,14 +221,14 @@ impl LangInterpreter for Italian {
                 }
             }
             "bilione" => {
-                if b.peek(2) != b"1" {
+                if (b.peek(3) != b"1" && b.peek(3) != b"001") || !b.is_range_free(3, 5) {
                     Err(Error::NaN)
                 } else {
                     b.shift(12)
                 }
             }
             "bilionesim" => {
-                if b.peek(2) == b"1" {
+                if b.peek(3) == b"1" || b.peek(3) == b"001" {
                     Err(Error::NaN)
                 } else {
                     b.shift(12)
